@@ -299,6 +299,7 @@ def gen_plan(run_seed, fault_mode=None):
     ops = []
     n_caches = 1
     uid = 0
+    used_names = set()
     for _ in range(n_ops):
         kind = wl.choices(kinds, [weights[k] for k in kinds])[0]
         c = wl.randrange(n_caches)
@@ -323,8 +324,14 @@ def gen_plan(run_seed, fault_mode=None):
             ops.append(['stk', c, wl.sample(keys, wl.randint(0, len(keys)))])
         elif kind == 'sub':
             if n_caches < 4:
-                ops.append(['sub', c, f'S{n_caches}'])
-                n_caches += 1
+                # leaf names come from a tiny alphabet: the same name may re-appear under a *different* parent
+                # (tenpy's engines always call their sub-cache 'env'), never twice under the same parent
+                free = [nm for nm in ('env', 'E2') if (c, nm) not in used_names]
+                if free:
+                    name = wl.choice(free)
+                    used_names.add((c, name))
+                    ops.append(['sub', c, name, n_caches])
+                    n_caches += 1
         elif kind == 'sleep':
             ops.append(['sleep', wl.choice([0.5, 1.0, 2.5])])
     # closing: explicit close somewhere in the tail in some runs, followed by use-after-close ops
@@ -605,7 +612,7 @@ class _RunState:
         c = op[1]
         if c not in self.caches:
             return  # sub-cache that could not be created (e.g. dropped by shrinking)
-        if kind == 'sub' and int(op[2][1:]) in self.caches:
+        if kind == 'sub' and _sub_index(op) in self.caches:
             return
         cache, model = self.caches[c], self.model[c]
         dead_before = self.worker_dead()
@@ -623,7 +630,7 @@ class _RunState:
         self.trace.append([i, _short(outcome)])
         self.check(i, kind, op, c, exp, outcome, status, got, dead_before, fault_in_op)
         if kind == 'sub' and status == 'ok' and not self.closed:
-            self.add_cache(int(op[2][1:]), got)
+            self.add_cache(_sub_index(op), got)
         self.update_model(kind, op, c, outcome, fault_in_op)
 
     def expected(self, kind, op, model):
@@ -847,6 +854,11 @@ class _RunState:
 
 
 _DEFAULT = object()
+
+
+def _sub_index(op):
+    """Index of the sub-cache created by a ['sub', parent, name, index] op (older replay files: name 'S<index>')."""
+    return int(op[3]) if len(op) > 3 else int(op[2][1:])
 
 
 class _Skip(Exception):
